@@ -366,6 +366,46 @@ def build(run):
                 return proved("exec+oracle(all registered types)", vcs=n, sample=f"{fw} table {hs}: {n} types agree with nearest-ancestor rule")
             run.add(f"dispatch/{fw}/handlers[{','.join(hs)}]", thunk, kind="proof")
 
+    # ---- dispatch for every registered type under EVERY one- and two-element subset of its ancestors' handlers (plus the catch-all 'expr'):
+    # covers types with several UFL base classes, whose nearest ancestor may be reached through a base that is not the first one
+    def all_pairs(fw):
+        def thunk():
+            names_of = {}
+            for T in Expr._ufl_all_classes_:
+                if not isinstance(T, type):
+                    continue
+                hn = []
+                for c in T.mro():
+                    nm_ = c.__dict__.get("_ufl_handler_name_")
+                    if nm_ and nm_ not in hn and nm_ not in ("expr", "ufl_type"):
+                        hn.append(nm_)
+                names_of[T] = hn
+            tables = set()
+            for T, hn in names_of.items():
+                for a_ in hn:
+                    tables.add(("expr", a_))
+                for a_, b_ in itertools.combinations(hn, 2):
+                    tables.add(("expr", a_, b_))
+            n = 0
+            for hs in sorted(tables):
+                cls = make_alg(fw, hs)
+                inst = cls()
+                for T in names_of:
+                    want = oracle(cls, T)
+                    if want is None:
+                        continue
+                    h = inst._handlers[T._ufl_typecode_]
+                    h = h[0] if isinstance(h, tuple) else h
+                    n += 1
+                    if getattr(h, "__func__", h) is not getattr(getattr(cls, want), "__func__", getattr(cls, want)):
+                        return violated(f"{fw}: type {T.__name__} (bases {[b.__name__ for b in T.__bases__]}) dispatched to {getattr(h, '__name__', h)} but the nearest ancestor "
+                                        f"in its MRO defining a handler gives {want!r} (handler table {hs})",
+                                        replay={"framework": fw, "handlers": list(hs), "type": T.__name__, "mro": [c.__name__ for c in T.mro()]}, reproduced=True)
+            return proved("exec+oracle(all registered types x all <=2-subsets of ancestor handlers)", vcs=n, sample=f"{fw}: {len(tables)} handler tables x {len(names_of)} types")
+        return thunk
+    for fw in ("mf", "tr"):
+        run.add(f"dispatch/{fw}/all-ancestor-handler-pairs", all_pairs(fw), kind="proof")
+
     def dagt_dispatch():
         from functools import singledispatchmethod
         import ufl.classes as C
